@@ -21,7 +21,7 @@ from sim.worlda import WorldA
 
 PROP = "C10"
 LEVEL = "fault_enumeration"
-SCENARIOS = ["connect", "lossy-connect", "ping-missed", "rf-fault", "needs-attention", "steady-commands", "spa-not-found"]
+SCENARIOS = ["connect", "lossy-connect", "ping-missed", "rf-fault", "needs-attention", "steady-commands", "spa-not-found", "send-errors"]
 # the library's own reset (a ping answered in an error state), with the client's handler suspending: no injection index needed
 AUTO_SCENARIOS = ["auto-reset-ping", "auto-reset-rf", "auto-reset-attention"]
 KINDS = ["reset", "setinfo", "exit"]
@@ -29,6 +29,7 @@ GRACE = 1.0
 EXIT_CAP = 300.0   # virtual seconds after which a context exit that has not returned counts as hanging
 LATE_WINDOW = 300.0
 _N_CACHE: Dict[Any, int] = {}
+_SPANS_CACHE: Dict[Any, Any] = {}
 
 
 def scenario_case(sseed: int, scen: str, k: Optional[int], kind: str) -> Dict[str, Any]:
@@ -55,7 +56,14 @@ def baseline_n(sseed: int, scen: str) -> int:
             # the baseline itself (no injection) must be clean apart from the exit-time checks
             pass
         _N_CACHE[key] = int(r.stats.get("body_callbacks", r.callbacks))
+        _SPANS_CACHE[key] = (r.sample or {}).get("state_spans", [])
     return _N_CACHE[key]
+
+
+def state_spans(sseed: int, scen: str):
+    """[(state, k_from, k_to)]: which injection indices of the baseline run fall into which manager state."""
+    baseline_n(sseed, scen)
+    return _SPANS_CACHE.get((sseed, scen), [])
 
 
 def gen_case(seed: int, tier: str, index: int) -> Dict[str, Any]:
@@ -64,6 +72,13 @@ def gen_case(seed: int, tier: str, index: int) -> Dict[str, Any]:
     sseed = 1000 + (index // len(SCENARIOS)) % 4          # a few scenario seeds, many injection points each
     n = baseline_n(sseed, scen)
     k = rng.randint(1, max(1, n))
+    spans = state_spans(sseed, scen)
+    if spans and rng.random() < 0.4:
+        # stratified by manager state: pick a state the baseline visited, then an index inside one of its spans, so that the short-lived
+        # states (LOCATED_SPAS, SPA_READY, IDLE) get their share of injection points
+        st = rng.choice(sorted({sp[0] for sp in spans}))
+        lo, hi = rng.choice([(a, b) for (s0, a, b) in spans if s0 == st])
+        k = max(1, min(n, rng.randint(lo, max(lo, hi))))
     kind = KINDS[(index // 3) % 3] if rng.random() < 0.8 else rng.choice(KINDS)
     return scenario_case(sseed, scen, k, kind)
 
@@ -159,6 +174,7 @@ async def scenario(world: WorldA) -> None:
         if scen == "lossy-connect":
             world.net.healed = False
             world.net.cfg["loss"] = cfg["lossp"]
+            world.net.cfg["send_error_p"] = 0.05       # some sendto() calls fail: asyncio reports them through error_received()
             await wait_state(lambda: man.spa_state == GeckoSpaState.CONNECTED, 120)
             world.net.cfg["loss"] = 0.0
             await asyncio.sleep(1.0)
@@ -189,6 +205,19 @@ async def scenario(world: WorldA) -> None:
             t = asyncio.create_task(f.spa.async_get_watercare(), name="HARNESS:cmd-wc")
             await wait_state(lambda: man.spa_state == GeckoSpaState.ERROR_NEEDS_ATTENTION, 200)
             await asyncio.sleep(1.0)
+        elif scen == "send-errors":
+            # steady state in which a few of the connection's sendto() calls fail (ENETUNREACH): the transport stays open, asyncio only
+            # calls protocol.error_received(); the connection carries on and is reset / left like any other
+            world.net.healed = False
+            world.net.cfg["send_error_p"] = 0.3
+            for i in range(4):
+                if man.facade is None:
+                    break
+                asyncio.create_task(_cmd(man.facade.spa, i), name=f"HARNESS:cmd-{i}")
+                await asyncio.sleep(0.5)
+            world.net.cfg["send_error_p"] = 0.0
+            res.probe("send_errors_on_the_connection")
+            await asyncio.sleep(3.0)
         elif scen == "steady-commands":
             f = man.facade
             cmds = []
@@ -407,6 +436,19 @@ async def scenario(world: WorldA) -> None:
     res.shape = format(mix(0, repr((scen, inj["kind"], snap.get("state"), sorted(snap.get("tasks", {}).values())))), "x")
     res.sample = {"scenario": scen, "inject": inj, "state_at_injection": snap.get("state"),
                   "tasks_at_injection": sorted(snap.get("tasks", {}).values())}
+    if inj["k"] is None and scen != "cycles":
+        # baseline: the manager state per injection index (from the deliveries' callback numbers), for stratified sampling
+        spans = []
+        ds = [d for d in man.deliveries if d["cb"] >= start_cb["n"]]
+        for a, b in zip(ds, ds[1:] + [None]):
+            k0 = a["cb"] - start_cb["n"] + 1
+            k1 = (b["cb"] - start_cb["n"]) if b is not None else int(res.stats.get("body_callbacks", k0))
+            if k1 >= k0:
+                if spans and spans[-1][0] == a["state"].name and spans[-1][2] + 1 >= k0:
+                    spans[-1][2] = k1
+                else:
+                    spans.append([a["state"].name, k0, k1])
+        res.sample["state_spans"] = spans[:400]
 
 
 def _is_locator(tr, sysm: System) -> bool:
